@@ -170,6 +170,10 @@ module Coq_Pos :
 
   val shiftl : positive -> n -> positive
 
+  val iter_op : ('a1 -> 'a1 -> 'a1) -> positive -> 'a1 -> 'a1
+
+  val to_nat : positive -> nat
+
   val of_succ_nat : nat -> positive
  end
 
@@ -226,6 +230,8 @@ module N :
   val shiftl : n -> n -> n
 
   val shiftr : n -> n -> n
+
+  val to_nat : n -> nat
 
   val of_nat : nat -> n
  end
@@ -874,6 +880,10 @@ val run_m_go :
   bool * bytes list
 
 val run_m : opts -> bytes -> bytes * bytes
+
+val run_k_go : nat -> n -> n -> bytes list -> bytes list
+
+val run_k : bytes -> bytes * bytes
 
 val run_case : bytes -> bytes
 
